@@ -23,7 +23,7 @@ JAVA = "-Xss512m"
 
 
 def cfg_mc(n, l, f, export):
-    return ("SPECIFICATION ESpec\nCONSTANTS\n  LeafVariants = {\"plain\", \"ins0\", \"req0\", \"seed\"}\n  MaxStmts = %d\n  MaxScript = %d\n  MaxFault = %d\nINVARIANT %s\n"
+    return ("SPECIFICATION ESpec\nCONSTANTS\n  LeafVariants = {\"plain\", \"ins0\", \"ent0\", \"req0\", \"seed\"}\n  MaxStmts = %d\n  MaxScript = %d\n  MaxFault = %d\nINVARIANT %s\n"
             "CHECK_DEADLOCK FALSE\n" % (n, l, f, "PrintCase" if export else INVS))
 
 
